@@ -28,6 +28,10 @@ type e3Call struct {
 	// never the other way round, which would be a lock-order inversion of the caller's making.
 	Cache int     `json:"cache,omitempty"`
 	Inner *e3Call `json:"inner,omitempty"`
+	// Freeze: instead of calling once, freeze the cache, as the end of a module's load does to
+	// every value reachable from its globals (a cache reachable from two modules, or twice
+	// from one, is frozen more than once, possibly while other modules still call once).
+	Freeze bool `json:"freeze,omitempty"`
 }
 
 type e3Scenario struct {
@@ -53,6 +57,9 @@ func e3Gen(r *rand.Rand, tier string) any {
 				if r.IntN(2) == 0 {
 					call.Inner = &e3Call{Key: r.IntN(nk), Fail: r.IntN(5) == 0, Yields: r.IntN(3)}
 				}
+			}
+			if r.IntN(8) == 0 {
+				call = e3Call{Freeze: true, Cache: call.Cache}
 			}
 			calls = append(calls, call)
 		}
@@ -131,6 +138,7 @@ func e3Exec(scAny any, c *simcheck.Ctx) *simcheck.Violation {
 	var setupErr error
 	s.Run(func() {
 		var onces []starlark.Callable
+		var caches []starlark.Value
 		for i := 0; i < max(1, sc.Caches); i++ {
 			cv, err := starlark.Call(&starlark.Thread{Name: "setup"}, builtin_cache, nil, nil)
 			if err != nil {
@@ -143,12 +151,18 @@ func e3Exec(scAny any, c *simcheck.Ctx) *simcheck.Violation {
 				return
 			}
 			onces = append(onces, once.(starlark.Callable))
+			caches = append(caches, cv)
 		}
 		var wg simsync.WaitGroup
 		id := 0
 		var do func(thread *starlark.Thread, client int, call e3Call, opID int)
 		do = func(thread *starlark.Thread, client int, call e3Call, opID int) {
 			cache := min(call.Cache, len(onces)-1)
+			if call.Freeze {
+				s.Yield("freeze", fmt.Sprintf("c%d", cache))
+				caches[cache].Freeze()
+				return
+			}
 			key := fmt.Sprintf("c%d/k%d", cache, call.Key)
 			invoked := false
 			fn := starlark.NewBuiltin("callable", func(th *starlark.Thread, _ *starlark.Builtin, _ starlark.Tuple, _ []starlark.Tuple) (starlark.Value, error) {
@@ -271,6 +285,9 @@ func e3Simplify(scAny any) []any {
 				c := clone()
 				c.Clients[i] = append(c.Clients[i][:k:k], c.Clients[i][k+1:]...)
 				out = append(out, c)
+			}
+			if sc.Clients[i][k].Freeze {
+				continue
 			}
 			if sc.Clients[i][k].Inner != nil {
 				c := clone()
